@@ -30,7 +30,7 @@ PROPS = {
 }
 
 # properties for which lib/witness.py has native oracles (used to arbitrate failures of shared invariant clauses)
-NATIVE_ORACLES = {"C01", "C02", "C03", "C04", "C05", "C06", "C07", "C08", "C10", "C11", "C12", "C13", "C14", "C15", "C20"}
+NATIVE_ORACLES = {"C01", "C02", "C03", "C04", "C05", "C06", "C07", "C08", "C10", "C11", "C12", "C13", "C14", "C15", "C19", "C20"}
 
 NOT_APPLICABLE = [
     {"property_id": "C09", "reason": "about the bytes flate2/miniz_oxide emit (valid gzip member, decodability after flush): no contract within reach can express or decide DEFLATE validity; the in-reach parts (bytes reach the encoder in order, coding headers) are covered under C08/C17"},
